@@ -1692,6 +1692,8 @@ struct sLinkLayerSlaveConnection
     bool sendLinkLayerTestFunction;
 
     bool nextFcb;
+
+    uint8_t lastRequestFc; /* function code of the request waiting for its response (for repetition) */
 };
 
 static LinkLayerSlaveConnection
@@ -1720,6 +1722,7 @@ LinkLayerSlaveConnection_create(LinkLayerSlaveConnection self, LinkLayerPrimaryU
 
         self->requestClass1Data = false;
         self->requestClass2Data = false;
+        self->lastRequestFc = LL_FC_11_REQUEST_USER_DATA_CLASS_2;
 
         BufferFrame_initialize(&(self->nextMessage), self->buffer, 0);
     }
@@ -2068,6 +2071,7 @@ LinkLayerSlaveConnection_runStateMachine(LinkLayerSlaveConnection self)
             SendFixedFrame(self->primaryLink->linkLayer, LL_FC_02_TEST_FUNCTION_FOR_LINK, self->address, true, false,
                            self->nextFcb, true);
 
+            self->lastRequestFc = LL_FC_02_TEST_FUNCTION_FOR_LINK;
             self->nextFcb = !(self->nextFcb);
             self->lastSendTime = currentTime;
             self->originalSendTime = currentTime;
@@ -2099,6 +2103,7 @@ LinkLayerSlaveConnection_runStateMachine(LinkLayerSlaveConnection self)
                                false, self->nextFcb, true);
 
                 self->requestClass1Data = false;
+                self->lastRequestFc = LL_FC_10_REQUEST_USER_DATA_CLASS_1;
             }
             else
             {
@@ -2108,6 +2113,7 @@ LinkLayerSlaveConnection_runStateMachine(LinkLayerSlaveConnection self)
                                false, self->nextFcb, true);
 
                 self->requestClass2Data = false;
+                self->lastRequestFc = LL_FC_11_REQUEST_USER_DATA_CLASS_2;
             }
 
             self->nextFcb = !(self->nextFcb);
@@ -2190,20 +2196,11 @@ LinkLayerSlaveConnection_runStateMachine(LinkLayerSlaveConnection self)
             {
                 DEBUG_PRINT("[SLAVE %i] TIMEOUT: ASDU not confirmed\n", self->address);
 
-                if (self->requestClass1Data)
-                {
-                    DEBUG_PRINT("[SLAVE %i] PLL - SEND FC 10 - REQ UD 1 [REPEAT]\n", self->address);
+                /* repeat the request that is waiting for its response, unchanged */
+                DEBUG_PRINT("[SLAVE %i] PLL - SEND FC %i [REPEAT]\n", self->address, (int)self->lastRequestFc);
 
-                    SendFixedFrame(self->primaryLink->linkLayer, LL_FC_10_REQUEST_USER_DATA_CLASS_1, self->address,
-                                   true, false, !(self->nextFcb), true);
-                }
-                else
-                {
-                    DEBUG_PRINT("[SLAVE %i] PLL - SEND FC 11 - REQ UD 2 [REPEAT]\n", self->address);
-
-                    SendFixedFrame(self->primaryLink->linkLayer, LL_FC_11_REQUEST_USER_DATA_CLASS_2, self->address,
-                                   true, false, !(self->nextFcb), true);
-                }
+                SendFixedFrame(self->primaryLink->linkLayer, self->lastRequestFc, self->address, true, false,
+                               !(self->nextFcb), true);
 
                 self->lastSendTime = currentTime;
             }
